@@ -1,7 +1,26 @@
 import Props.C02
+import Props.C02T
 #print axioms C02.adjin_refines
 #print axioms C02.adjin_unique_and_counted
 #print axioms C02.locrib_refines
 #print axioms C02.withdraw_removes
 #print axioms C02.locrib_within_adjin
 #print axioms C02.adjin_within_locrib
+#print axioms C02T.table_refines_map
+#print axioms C02T.get_is_map_lookup
+#print axioms C02T.get_sharded_is_map_lookup
+#print axioms C02T.iteration_exact
+#print axioms C02T.hash_irrelevant
+#print axioms C02T.update_touches_only_its_prefix
+#print axioms C02T.update_at_its_prefix
+#print axioms C02T.no_empty_bucket
+#print axioms C02T.invariant_preserved
+#print axioms C02T.insertUpdate_is_map_insert
+#print axioms C02T.collision_flag_exact
+#print axioms C02T.lookups_are_set_theoretic
+#print axioms C02T.lookups_list_no_prefix_twice
+#print axioms C02T.covers_is_bit_prefix
+#print axioms C02T.select_result_exact
+#print axioms C02T.counters_are_sizes
+#print axioms C02T.path_listings_exact
+#print axioms C02T.observations_depend_on_content_only
